@@ -69,6 +69,10 @@ def gen_overlap(rng, seed, prog):
     case["sched"] = {"kind": rng.choice(["pct", "site", "site"]), "seed": seed,
                      "p": rng.choice([0.02, 0.005]), "q": rng.choice([0.3, 0.15]),
                      "d": rng.choice([1, 2, 3]), "step_cost_us": rng.choice([1, 10, 100])}
+    if rng.random() < 0.3:
+        # fault 'eager poller' (see simrun.Runner._eager)
+        case["sched"]["eager"] = [rng.choice([0.5, 0.01]),
+                       rng.choice([0, 1, 2, 3, 4, 6, 8, 10, 12, 15, 20, 25, 30, 40, 60])]
     return case
 
 
